@@ -169,6 +169,20 @@ CLAIMED.update({
             "DESIGN.md section 4 C19"),
 })
 
+CLAIMED.update({
+    "C12": ("other", "structural obligations on the real AST + inductive fold lemma (z3) + frame audit of every use of the "
+            "parameter map; tokenizer only bounded",
+            "Partial. The reader is shown to be a fold of plain dictionary stores of a pure per-line function, such folds "
+            "obey 'last occurrence governs / skipped lines are irrelevant' (inductive VC discharged by z3), every use of "
+            "the parameter map in Model and in all readers is map-like (key scans only at allow-listed set-level sites), "
+            "and module readers apply parameters in ParameterDict order - so results cannot depend on the order of lines "
+            "with different names, on blank/comment lines or on earlier duplicates.",
+            "The tokenizer (comment prefixes, whitespace, line endings, trailing comments) is NOT proved: it is run, "
+            "mechanically extracted from the real loop body, on 36,942 enumerated decorated lines - labelled bounded in "
+            "the evidence and not counted. Downstream order-independence of other containers is determinism (C08).",
+            "DESIGN.md section 4 C12"),
+})
+
 NOT_APPLICABLE = {
     "C13": "independence/non-replication of Monte Carlo draws across forked pool workers is a schedule/process-history "
            "property of numpy's global RNG under fork; no per-call contract can state it (DESIGN.md section 6)",
